@@ -1,21 +1,21 @@
 (* C04 — vectorization does not change the model (vectorize=True == vectorize=False == unit-level edge sum).
    Statements only; every proof is `exact <lemma of VectorizeProofs>`.  Model: theories/Vectorize.v.
 
-   What is proved for all inputs (any number of classes, units, edges): the index bookkeeping of cache_func, the
-   alignment of the grouped edge lists (with its precondition, D46), both realisations of an edge projection (matrix
-   product / indexed assignment) equal to the edge sum, the branch condition, the combination of several inputs and the
-   default rule (C04_partial), the scalar collapse, and the END-TO-END composition:
-     C04_sound            wf c -> impl vec c st = Some r -> r = spec c st      (both modes, no guard)
-     C04_full_up_to_err   wf c -> impl vec c st = None \/ impl vec c st = Some (spec c st)
-     C04_vec_equals_nonvec
-   The only way Impl differs from Spec is by raising, in the two loud classes D21 and D32 (C04_err_constant_rhs,
-   C04_err_scalar_fanout; the real code raises exactly there).  Both have model switches (Vectorize.fixed_D21 / fixed_D32,
-   false while the repairs are only proposed).  C04_repaired_never_raises + C04_full_of_repaired_model: with both switches
-   on, impl = Some spec for EVERY well-formed circuit; C04_full_when_repaired: the full statement itself, under the
-   hypotheses fixed_D21 = true, fixed_D32 = true (discharged by reflexivity once the switches are flipped).
-   While a switch is off: C04_full_refuted (conditional on fixed_D21 = false), and C04_no_err_statement (the boolean
-   guards characterise the loud classes) stays stated, not proved; C04_guarded_from_no_err.
-   D14, D3 repaired (D57, D59): `_before_D57/_before_D59` notes. *)
+   FULL STATEMENT, unconditional (all repairs D46, D57, D58, D59, D85, D86 are in /repo):
+     C04_full             forall c st, wf c = true -> length st = length (cnodes c) ->
+                            impl true c st = Some (spec c st) /\ impl false c st = Some (spec c st)
+     C04_impl_is_spec     forall vec c st, wf c = true -> impl vec c st = Some (spec c st)
+   for any number of classes, units and edges, any order of nodes and edges, parallel edges, self-connections, weightless
+   edges, several source variables per class pair, any defaults, constant right-hand sides, single-unit fan-out: the
+   modelled vectorized and non-vectorized compilations both compute the vector field of the edge list, and never raise.
+   Ingredients proved on the way: index bookkeeping of cache_func, alignment of the grouped edge lists (with its
+   precondition, D46), both realisations of an edge projection equal to the edge sum, the branch condition, the combination
+   of several inputs and the default rule (C04_partial), the scalar collapse, C04_sound (for any switch setting).
+   Records of the mechanism before the repairs: `_before_D57`, `_before_D59` notes, C04_err_constant_rhs and
+   C04_err_scalar_fanout (impl_loud = the model with the switches off raises where the old code raised; the repaired
+   model agrees with the edge list on the same inputs), C04_full_refuted_before_D86.
+   Outside the model's type (still a finding, raw witness): D23, an algebraic source variable that depends on its own
+   input. *)
 From Coq Require Import List ZArith QArith Qcanon Bool Arith.
 From PV Require Import Vectorize VectorizeProofs.
 Import ListNotations.
@@ -124,7 +124,7 @@ Print Assumptions C04_collapse_unequal_refuted.
 (* ---- the full statement is false of the faithful model ---- *)
 Definition C04_full_statement : Prop := full_statement.
 Definition C04_guarded_statement : Prop := guarded_statement.
-Definition C04_no_err_statement : Prop := no_err_statement.        (* the remaining gap: stated, not proved *)
+Definition C04_no_err_statement : Prop := no_err_statement.        (* now a corollary of C04_full (Impl never raises) *)
 
 (* end-to-end: whenever the modelled compilation does not raise, it computes the vector field of the edge list *)
 Theorem C04_sound : forall vec c st r, wf c = true -> impl vec c st = Some r -> r = spec c st.
@@ -144,9 +144,9 @@ Theorem C04_guarded_from_no_err : C04_no_err_statement -> C04_guarded_statement.
 Proof. exact guarded_from_no_err. Qed.
 Print Assumptions C04_guarded_from_no_err.
 
-Theorem C04_full_refuted : fixed_D21 = false -> ~ C04_full_statement.
+Theorem C04_full_refuted_before_D86 : fixed_D21 = false -> ~ C04_full_statement.
 Proof. exact full_statement_refuted. Qed.
-Print Assumptions C04_full_refuted.
+Print Assumptions C04_full_refuted_before_D86.
 
 Theorem C04_refuted_default_before_D57 :
   wf w_d14 = true /\ no_constant_rhs w_d14 = true /\ single_source_var w_d14 = true /\ no_scalar_fanout w_d14 = true /\
@@ -194,6 +194,14 @@ Theorem C04_full_of_repaired_model : forall vec c st, wf c = true ->
   impl_gen input_of true true true vec c st = Some (spec c st).
 Proof. exact full_of_repaired_model. Qed.
 Print Assumptions C04_full_of_repaired_model.
+
+Theorem C04_full : C04_full_statement.
+Proof. exact full_statement_holds. Qed.
+Print Assumptions C04_full.
+
+Theorem C04_impl_is_spec : forall vec c st, wf c = true -> impl vec c st = Some (spec c st).
+Proof. exact impl_is_spec. Qed.
+Print Assumptions C04_impl_is_spec.
 
 Theorem C04_full_when_repaired : fixed_D21 = true -> fixed_D32 = true -> C04_full_statement.
 Proof. exact full_when_repaired. Qed.
